@@ -12,3 +12,7 @@ CONSTANTS
 INIT Init
 NEXT Next
 INVARIANT ExportHist
+INVARIANT Contract
+INVARIANT NoOverReadInv
+INVARIANT PosEqualsUpos
+INVARIANT LoopBound
